@@ -332,6 +332,10 @@ ExecStmt(s, st) ==
     [] s.t = "let"  -> LET r == EvalE(s.e, st) IN
                        IF r.k = "ok" THEN R("ok", Nil, <<>>, SetTop(r.st, s.n, r.v), FALSE, FALSE)
                        ELSE IF Bad(r) THEN NoUnk(r) ELSE Unspec(r.st)
+    [] s.t = "letnl" -> LET r == EvalE(s.e, st) IN            \* a let spread over several lines: same meaning
+                       IF r.k = "ok" THEN R("ok", Nil, <<>>, SetTop(r.st, s.n, r.v), FALSE, FALSE)
+                       ELSE IF Bad(r) THEN NoUnk(r) ELSE Unspec(r.st)
+    [] s.t = "rawtag" -> Err(st)                                \* a tag with a syntax error (given as tokens)
     [] s.t = "ret"  -> LET r == EvalE(s.e, st) IN
                        IF r.k = "ok" THEN R("ret", r.v, <<>>, r.st, FALSE, FALSE)
                        ELSE IF Bad(r) THEN NoUnk(r) ELSE Unspec(r.st)
